@@ -378,6 +378,10 @@ pub fn expr_to_source_with_scope(
             return_expr,
         } => {
             let mut result = "do {".to_string();
+            // A local bound by a statement of the block hides a captured value of the same name
+            // for the rest of the block, so it must not be inlined there
+            let mut scope = scope.clone();
+            let scope = &mut scope;
             for (index, stmt) in statements.iter().enumerate() {
                 // Leading comments
                 for comment in &stmt.leading {
@@ -385,6 +389,9 @@ pub fn expr_to_source_with_scope(
                 }
                 // Expression (a later statement starting with `-` would continue the line above)
                 let statement = expr_to_source_with_scope(&stmt.node, scope);
+                if let Expr::Assignment { ident, .. } = &stmt.node.node {
+                    scope.shift_remove(ident);
+                }
                 if index > 0 && statement.starts_with('-') {
                     result.push_str(&format!("\n  ({})", statement));
                 } else {
